@@ -235,11 +235,17 @@ func (b *Builder) addFile(pkgPath importPathString, path string, src []byte, use
 }
 
 // trailingComments returns the comment groups of f which start on a line on
-// which code ends before them (e.g. "X int // comment"). Such a comment belongs
-// to that code: it is not a doc comment or a detached comment of whatever
-// follows it.
+// which there is code before them (e.g. "X int // comment" or "var ( // comment").
+// Such a comment belongs to that code: it is not a doc comment or a detached
+// comment of whatever follows it.
 func trailingComments(fset *token.FileSet, f *ast.File) map[*ast.CommentGroup]bool {
-	firstEnd := map[int]token.Pos{} // line -> earliest end of a node ending on it
+	firstCode := map[int]token.Pos{} // line -> earliest position at which a node starts or ends on it
+	mark := func(pos token.Pos) {
+		line := fset.Position(pos).Line
+		if cur, ok := firstCode[line]; !ok || pos < cur {
+			firstCode[line] = pos
+		}
+	}
 	ast.Inspect(f, func(n ast.Node) bool {
 		switch n.(type) {
 		case nil:
@@ -247,16 +253,13 @@ func trailingComments(fset *token.FileSet, f *ast.File) map[*ast.CommentGroup]bo
 		case *ast.File, *ast.Comment, *ast.CommentGroup:
 			return true
 		}
-		end := n.End()
-		line := fset.Position(end).Line
-		if cur, ok := firstEnd[line]; !ok || end < cur {
-			firstEnd[line] = end
-		}
+		mark(n.Pos())
+		mark(n.End())
 		return true
 	})
 	out := map[*ast.CommentGroup]bool{}
 	for _, c := range f.Comments {
-		if end, ok := firstEnd[fset.Position(c.Pos()).Line]; ok && end <= c.Pos() {
+		if pos, ok := firstCode[fset.Position(c.Pos()).Line]; ok && pos <= c.Pos() {
 			out[c] = true
 		}
 	}
